@@ -488,7 +488,10 @@ func (oh *ObjectHeader) isDeltaOnDisk() bool {
 // parentReader returns a [io.ReaderAt] for the decompressed contents
 // of the parent.
 func (p *Parser) parentReader(parent *ObjectHeader) (io.ReaderAt, error) {
-	if parent.content != nil && parent.content.Len() > 0 {
+	// A kept buffer of length zero is the content of an empty object, not
+	// a missing one, once the parent has been named.
+	if parent.content != nil && (parent.content.Len() > 0 ||
+		(parent.Size == 0 && !parent.externalRef && !parent.Hash.IsZero())) {
 		return bytes.NewReader(parent.content.Bytes()), nil
 	}
 
